@@ -367,6 +367,244 @@ theorem isomapPre_perm (π : Equiv.Perm (Fin n)) (G : Mat n n K) :
   | cons s steps ih =>
     rw [List.foldl_cons, List.foldl_cons, isomapStep_perm, ih]
 
+/-- C06: scaling the data by `c` scales the covariance matrix by `c²` -/
+theorem pcaPre_c06_scale (c : K) (X : Mat N D K) :
+    TapkeeVerif.pcaPre (scaleData c X) = fun a b => c ^ 2 * TapkeeVerif.pcaPre X a b := by
+  have hmean : ∀ a, TapkeeVerif.computeMean (scaleData c X) a = c * TapkeeVerif.computeMean X a := by
+    intro a
+    unfold TapkeeVerif.computeMean scaleData
+    rw [sumFin_mul_left, mul_div_assoc]
+  have hup : ∀ a b, TapkeeVerif.covarianceUpper (scaleData c X) (TapkeeVerif.computeMean (scaleData c X)) a b
+      = c ^ 2 * TapkeeVerif.covarianceUpper X (TapkeeVerif.computeMean X) a b := by
+    intro a b
+    unfold TapkeeVerif.covarianceUpper
+    by_cases hab : a ≤ b
+    · simp only [hab, if_true, hmean]
+      have : (sumFin N fun i => scaleData c X i a * scaleData c X i b) = c ^ 2 * sumFin N fun i => X i a * X i b := by
+        unfold scaleData
+        rw [← sumFin_mul_left]
+        exact sumFin_congr fun i => by ring
+      rw [this]
+      ring
+    · simp only [hab, if_false, mul_zero]
+  funext a b
+  unfold TapkeeVerif.pcaPre TapkeeVerif.covarianceMatrix TapkeeVerif.mirrorLower
+  by_cases hba : b < a
+  · simp only [hba, if_true, hup]
+  · simp only [hba, if_false, hup]
+
+/-- how a factor on the input propagates through one generated statement: `.array().square()` squares it, the
+    other statements are linear -/
+def stepDegree (a : K) : Gen.Isomap.Step → K
+  | .square => a * a
+  | _ => a
+
+theorem isomapStep_scale (a : K) (A : Mat n n K) (s : Gen.Isomap.Step) :
+    IsomapPre.applyStep (fun i j => a * A i j) s = fun i j => stepDegree a s * IsomapPre.applyStep A s i j := by
+  cases s with
+  | square =>
+    funext i j
+    simp only [IsomapPre.applyStep, IsomapPre.squareEntries, stepDegree]
+    ring
+  | symmetrise =>
+    funext i j
+    simp only [IsomapPre.applyStep, IsomapPre.denseSym, stepDegree]
+    ring
+  | scale num den =>
+    funext i j
+    simp only [IsomapPre.applyStep, stepDegree]
+    ring
+  | center =>
+    have hc : ∀ B : Mat n n K, IsomapPre.centerMatrixIso B = Equivariance.centerMatrix B := by
+      intro B
+      funext i j
+      simp only [IsomapPre.centerMatrixIso, IsomapPre.colMeans, IsomapPre.grandMean, Equivariance.centerMatrix,
+        Equivariance.centerWith, Equivariance.colMean, Equivariance.grandMean, Nat.cast_mul]
+    show IsomapPre.centerMatrixIso (fun i j => a * A i j) = fun i j => a * IsomapPre.centerMatrixIso A i j
+    rw [hc, hc, centerMatrix_smul]
+
+theorem isomapFold_scale (steps : List Gen.Isomap.Step) (a : K) (G : Mat n n K) :
+    steps.foldl IsomapPre.applyStep (fun i j => a * G i j)
+      = fun i j => steps.foldl stepDegree a * steps.foldl IsomapPre.applyStep G i j := by
+  induction steps generalizing a G with
+  | nil => rfl
+  | cons s steps ih =>
+    rw [List.foldl_cons, List.foldl_cons, List.foldl_cons, isomapStep_scale, ih]
+
+/-- C04: scaling the geodesic matrix by `c` scales the matrix Isomap hands to the eigensolver by `c²` (stated over
+    the regenerated statement list: a change of the list re-states — and may break — this theorem) -/
+theorem isomapPre_scale (c : K) (G : Mat n n K) :
+    IsomapPre.isomapPre (fun i j => c * G i j) = fun i j => c ^ 2 * IsomapPre.isomapPre G i j := by
+  unfold IsomapPre.isomapPre
+  rw [isomapFold_scale]
+  have : Gen.Isomap.isomapSteps.foldl stepDegree c = c ^ 2 := by
+    simp [Gen.Isomap.isomapSteps, stepDegree]
+    ring
+  rw [this]
+
 end stages
+
+/-! ## C04: geodesics scale with the edge weights -/
+
+section dijkstraScale
+open TapkeeVerif.Dijkstra
+variable {K : Type} [Field K] [LinearOrder K] [IsStrictOrderedRing K]
+
+/-- `P'` is `P` with every edge weight (every value of the distance callback) multiplied by `c` -/
+structure IsScaled (c : K) (P P' : Problem K) : Prop where
+  N_eq : P'.N = P.N
+  nbrs_eq : P'.nbrs = P.nbrs
+  w : ∀ a b, P'.w a b = c * P.w a b
+
+variable {c : K} {P P' : Problem K} {k : Nat}
+
+theorem edge_scaled (hs : IsScaled c P P') {u x : Nat} : Edge P' k u x ↔ Edge P k u x := by
+  unfold Edge Problem.nbr
+  rw [hs.N_eq, hs.nbrs_eq]
+
+theorem walk_scaled (hs : IsScaled c P P') {s v : Nat} {d : K} (h : Walk P k s v d) : Walk P' k s v (c * d) := by
+  induction h with
+  | nil h0 =>
+    rw [mul_zero]
+    exact Walk.nil (hs.N_eq ▸ h0)
+  | snoc _ he ih =>
+    have := Walk.snoc ih ((edge_scaled hs).mpr he)
+    rwa [hs.w, ← mul_add] at this
+
+theorem walk_unscaled (hs : IsScaled c P P') {s v : Nat} {d' : K} (h : Walk P' k s v d') :
+    ∃ d, d' = c * d ∧ Walk P k s v d := by
+  induction h with
+  | nil h0 => exact ⟨0, (mul_zero c).symm, Walk.nil (hs.N_eq ▸ h0)⟩
+  | snoc _ he ih =>
+    obtain ⟨d, hd, hw⟩ := ih
+    exact ⟨_, by rw [hd, hs.w, ← mul_add], Walk.snoc hw ((edge_scaled hs).mp he)⟩
+
+/-- geodesic distances scale with the weights (`c ≥ 0`; unreachable stays unreachable) -/
+theorem geodesic_scale (hs : IsScaled c P P') (hc : 0 ≤ c) {s v : Nat} {o : Option K}
+    (h : IsGeodesic P k s v o) : IsGeodesic P' k s v (o.map (c * ·)) := by
+  cases o with
+  | none =>
+    intro d' hw
+    obtain ⟨d, -, hw0⟩ := walk_unscaled hs hw
+    exact h d hw0
+  | some d =>
+    refine ⟨walk_scaled hs h.1, fun d' hw => ?_⟩
+    obtain ⟨d0, rfl, hw0⟩ := walk_unscaled hs hw
+    exact mul_le_mul_of_nonneg_left (h.2 d0 hw0) hc
+
+/-- **dijkstra_scale.**  Scale every value of the distance callback by `c ≥ 0`: for both queue disciplines and every
+    tie-breaking stream on either side the computed row is the scaled row (`dblmax` entries stay `dblmax`) -/
+theorem dijkstra_scale (hs : IsScaled c P P') (hc : 0 ≤ c) (hwf : WF P k) (hw : ∀ a b, 0 ≤ P.w a b)
+    (disc disc' : Disc) (ch ch' : Nat → Nat) {s : Nat} (hsN : s < P.N) :
+    ∃ r r', row P disc k ch s s = .ok r ∧ row P' disc' k ch' s s = .ok r' ∧
+      ∀ v (hv : v < P.N), r'[v]'(hs.N_eq ▸ hv) = (r[v]).map (c * ·) := by
+  have hwf' : WF P' k := by
+    intro u hu i hi
+    rw [hs.N_eq] at hu
+    obtain ⟨y, hy, hyN⟩ := hwf u hu i hi
+    exact ⟨y, by unfold Problem.nbr at hy ⊢; rw [hs.nbrs_eq]; exact hy, hs.N_eq ▸ hyN⟩
+  have hw' : ∀ a b, 0 ≤ P'.w a b := fun a b => by rw [hs.w]; exact mul_nonneg hc (hw a b)
+  obtain ⟨r, hrow, hg⟩ := dijkstra_exact hwf hw disc ch hsN
+  obtain ⟨r', hrow', hg'⟩ := dijkstra_exact hwf' hw' disc' ch' (hs.N_eq ▸ hsN : s < P'.N)
+  refine ⟨r, r', hrow, hrow', fun v hv => ?_⟩
+  exact (hg' v (hs.N_eq ▸ hv)).unique (geodesic_scale hs hc (hg v hv))
+
+/-- non-vacuity -/
+example : IsScaled (K := ℚ) 4 ⟨3, #[#[1], #[2], #[0]], fun a b => (a : ℚ) + b⟩
+    ⟨3, #[#[1], #[2], #[0]], fun a b => 4 * ((a : ℚ) + b)⟩ := ⟨rfl, rfl, fun _ _ => rfl⟩
+
+end dijkstraScale
+
+/-! ## the variational eigen-system contract of C05 / C06 (`Spectral.IsTopEig`) -/
+
+section spectralTop
+open Matrix TapkeeVerif.Spectral
+variable {K : Type} [Field K] [LinearOrder K] [IsStrictOrderedRing K]
+variable {n d : Type} [Fintype n] [DecidableEq n] [Fintype d] [DecidableEq d]
+
+theorem perm_mulVec_zero (π : Equiv.Perm n) (V : Matrix n d K) (x : n → K)
+    (h : (V.submatrix π id)ᵀ *ᵥ x = 0) : Vᵀ *ᵥ (fun i => x (π.symm i)) = 0 := by
+  funext j
+  have := congrFun h j
+  simp only [mulVec, dotProduct, transpose_apply, submatrix_apply, id_eq, Pi.zero_apply] at this ⊢
+  rw [← this, ← Equiv.sum_comp π]
+  simp
+
+theorem perm_quadratic (π : Equiv.Perm n) (A : Matrix n n K) (x : n → K) :
+    x ⬝ᵥ (A.submatrix π π *ᵥ x) = (fun i => x (π.symm i)) ⬝ᵥ (A *ᵥ fun i => x (π.symm i)) := by
+  simp only [mulVec, dotProduct, submatrix_apply]
+  rw [← Equiv.sum_comp π (fun i => x (π.symm i) * ∑ j, A i j * x (π.symm j))]
+  refine Finset.sum_congr rfl fun i _ => ?_
+  rw [← Equiv.sum_comp π (fun j => A (π i) j * x (π.symm j))]
+  simp
+
+theorem perm_self (π : Equiv.Perm n) (x : n → K) :
+    x ⬝ᵥ x = (fun i => x (π.symm i)) ⬝ᵥ fun i => x (π.symm i) := by
+  simp only [dotProduct]
+  rw [← Equiv.sum_comp π (fun i => x (π.symm i) * x (π.symm i))]
+  simp
+
+/-- C05/C06's variational top eigen-system is stable under `A ↦ ΠAΠᵀ`, `V ↦ ΠV` -/
+theorem spectralTopEig_perm (π : Equiv.Perm n) {A : Matrix n n K} {V : Matrix n d K} {lam : d → K}
+    (h : Spectral.IsTopEig A V lam) : Spectral.IsTopEig (A.submatrix π π) (V.submatrix π id) lam := by
+  refine ⟨isEigSystem_perm π h.toIsEigSystem, fun x hx j => ?_⟩
+  rw [perm_quadratic, perm_self π x]
+  exact h.top _ (perm_mulVec_zero π V x hx) j
+
+theorem spectralBottomEig_perm (π : Equiv.Perm n) {A : Matrix n n K} {V : Matrix n d K} {lam : d → K}
+    (h : Spectral.IsBottomEig A V lam) : Spectral.IsBottomEig (A.submatrix π π) (V.submatrix π id) lam := by
+  refine ⟨isEigSystem_perm π h.toIsEigSystem, fun x hx j => ?_⟩
+  rw [perm_quadratic, perm_self π x]
+  exact h.bottom _ (perm_mulVec_zero π V x hx) j
+
+/-- … and under a non-negative scaling `A ↦ aA`, `λ ↦ aλ` (`a = c²`) -/
+theorem spectralTopEig_scale (a : K) (ha : 0 ≤ a) {A : Matrix n n K} {V : Matrix n d K} {lam : d → K}
+    (h : Spectral.IsTopEig A V lam) : Spectral.IsTopEig (a • A) V (fun j => a * lam j) := by
+  refine ⟨⟨?_, h.ortho⟩, fun x hx j => ?_⟩
+  · rw [Matrix.smul_mul, h.eig, ← Matrix.mul_smul]
+    congr 1
+    ext i j
+    simp only [Matrix.smul_apply, diagonal_apply, smul_eq_mul]
+    split_ifs <;> simp
+  · have := h.top x hx j
+    rw [smul_mulVec, dotProduct_smul, smul_eq_mul]
+    calc a * (x ⬝ᵥ (A *ᵥ x)) ≤ a * (lam j * (x ⬝ᵥ x)) := mul_le_mul_of_nonneg_left this ha
+      _ = a * lam j * (x ⬝ᵥ x) := by ring
+
+end spectralTop
+
+section spectralBridge
+open Matrix TapkeeVerif.Spectral TapkeeVerif.Equivariance
+variable {K : Type} [Field K] [LinearOrder K] [IsStrictOrderedRing K] {n d : Nat}
+
+/-- the eigenvector-based `IsTopEig` of `Props/C12` is implied by the variational `Spectral.IsTopEig` of C05/C06
+    (the converse needs a full eigen-system of `B` in `K`) -/
+theorem isTopEig_of_spectral {B : Mat n n K} {V : Mat n d K} {lam : Vec d K}
+    (h : Spectral.IsTopEig (Mat.toM B) (Mat.toM V) lam) : Equivariance.IsTopEig B V lam := by
+  refine ⟨(isEigSys_iff_isEigSystem B V lam).mpr h.toIsEigSystem, fun μ w hw hev horth c => ?_⟩
+  have hVw : (Mat.toM V)ᵀ *ᵥ w = 0 := by
+    funext j
+    have := horth j
+    rw [sumFin_eq_sum] at this
+    simp only [mulVec, dotProduct, transpose_apply, Mat.toM_apply, Pi.zero_apply]
+    rw [← this]
+    exact Finset.sum_congr rfl fun i _ => mul_comm _ _
+  have hq : w ⬝ᵥ (Mat.toM B *ᵥ w) = μ * (w ⬝ᵥ w) := by
+    simp only [mulVec, dotProduct, Mat.toM_apply]
+    rw [Finset.mul_sum]
+    refine Finset.sum_congr rfl fun i _ => ?_
+    have := hev i
+    rw [sumFin_eq_sum] at this
+    rw [this]
+    ring
+  have hpos : 0 < w ⬝ᵥ w := by
+    obtain ⟨i, hi⟩ := hw
+    simp only [dotProduct]
+    exact Finset.sum_pos' (fun j _ => mul_self_nonneg (w j)) ⟨i, Finset.mem_univ i, mul_self_pos.mpr hi⟩
+  have := h.top w hVw c
+  rw [hq] at this
+  exact le_of_mul_le_mul_right this hpos
+
+end spectralBridge
 
 end TapkeeVerif.C12b
